@@ -1,6 +1,8 @@
 package hx
 
 import (
+	"github.com/nautilus/gateway"
+	"context"
 	"fmt"
 	"sort"
 	"strings"
@@ -28,7 +30,7 @@ func (m mergeRunner) Cases(tier string) int {
 }
 
 func (m mergeRunner) Rule() string {
-	return "lists of 2-4 services drawn from one table of definitions of every kind (object field subsets, differing interface sets and descriptions: compatible by construction), each third case with one single-point difference from a catalogue of 43 (kind, field type / nullability / list depth, argument set / type / scalar, list and object defaults, enum values, union members, interface and input fields, directive executable locations and arguments, applied directives incl. repeatable multisets; plus compatible variations) applied to one service; for every order of the services (all permutations up to 4 services, each twice): gateway.New outcome in {ok, error, panic} and, when ok, the canonical dump of the merged schema captured through WithPlanner (kinds, fields with full signatures, interfaces, possible types, implements, directive definitions) are compared with the Lean merge model and with each other; the printed merged schema must load again; the routing table must equal the Lean routing model; non-trivial = at least one name defined by two services; distinct = distinct service list"
+	return "lists of 2-4 services drawn from one table of definitions of every kind (object field subsets, differing interface sets and descriptions: compatible by construction), a third of the cases with query fields of the gateway's own (WithQueryFields: the same names with differing types and arguments from case to case, so that gateways built one after the other in one process differ in them); each third case with one single-point difference from a catalogue of 43 (kind, field type / nullability / list depth, argument set / type / scalar, list and object defaults, enum values, union members, interface and input fields, directive executable locations and arguments, applied directives incl. repeatable multisets; plus compatible variations) applied to one service; for every order of the services (all permutations up to 4 services, each twice): gateway.New outcome in {ok, error, panic} and, when ok, the canonical dump of the merged schema captured through WithPlanner (kinds, fields with full signatures, interfaces, possible types, implements, directive definitions) are compared with the Lean merge model and with each other; the printed merged schema must load again; the routing table must equal the Lean routing model; non-trivial = at least one name defined by two services; distinct = distinct service list"
 }
 
 var mergeCorpus = []MergeCase{
@@ -66,6 +68,10 @@ type mergeOutcome struct {
 }
 
 func buildOrder(sdls []string, order []int, parsed ...*ast.Schema) mergeOutcome {
+	return buildOrderWith(sdls, order, nil, parsed...)
+}
+
+func buildOrderWith(sdls []string, order []int, gwFields []GwField, parsed ...*ast.Schema) mergeOutcome {
 	spec := FedSpec{SDLs: map[string]string{}, Parsed: map[string]*ast.Schema{}}
 	for _, k := range order {
 		url := fmt.Sprintf("S%d", k)
@@ -75,7 +81,16 @@ func buildOrder(sdls []string, order []int, parsed ...*ast.Schema) mergeOutcome 
 			spec.Parsed[url] = parsed[k]
 		}
 	}
-	f, err := NewFed(spec, Store{})
+	var opts []gateway.Option
+	if len(gwFields) > 0 {
+		var qfs []*gateway.QueryField
+		for _, g := range gwFields {
+			qfs = append(qfs, &gateway.QueryField{Name: g.Name, Type: g.astType(), Arguments: g.astArgs(),
+				Resolver: func(ctx context.Context, args map[string]interface{}) (string, error) { return "x", nil }})
+		}
+		opts = append(opts, gateway.WithQueryFields(qfs...))
+	}
+	f, err := NewFed(spec, Store{}, opts...)
 	if err != nil {
 		if strings.HasPrefix(err.Error(), "PANIC") {
 			return mergeOutcome{Kind: "panic", Err: err.Error()}
@@ -146,6 +161,23 @@ func (m mergeRunner) Run(c *Ctx, i int) CaseResult {
 		for s := range svcs {
 			mc.SDLs = append(mc.SDLs, renderService(svcs[s], s))
 		}
+		if r.Intn(3) == 0 {
+			// the gateway is given query fields of its own (always under the same one or two names, with whatever
+			// type and arguments this case draws: gateways built one after the other in one process differ in them)
+			var objs []string
+			for _, d := range svcs[0] {
+				if d.Kind == "type" && d.Name != "Query" && d.Name != "Mutation" {
+					objs = append(objs, d.Name)
+				}
+			}
+			sort.Strings(objs)
+			if len(objs) > 0 {
+				mc.GatewayFields = append(mc.GatewayFields, GwField{Name: "viewer", Type: objs[r.Intn(len(objs))], List: r.Intn(3) == 0, Arg: r.Intn(2) == 0})
+				if r.Intn(2) == 0 {
+					mc.GatewayFields = append(mc.GatewayFields, GwField{Name: "current", Type: objs[r.Intn(len(objs))], Arg: r.Intn(2) == 0})
+				}
+			}
+		}
 		id = fmt.Sprintf("gen:%d", i)
 	}
 	res := CaseResult{ID: id, Key: strings.Join(mc.SDLs, "\n----\n")}
@@ -160,7 +192,15 @@ func (m mergeRunner) Run(c *Ctx, i int) CaseResult {
 		schemas = append(schemas, s)
 	}
 	internal, _ := gqlparser.LoadSchema(&ast.Source{Input: internalSDL})
+	// the gateway's own additions: Node, Query.node and the query fields it was given (a type they name must be one
+	// a service declares)
+	for _, g := range mc.GatewayFields {
+		internal.Types["Query"].Fields = append(internal.Types["Query"].Fields, &ast.FieldDefinition{Name: g.Name, Type: g.astType(), Arguments: g.astArgs()})
+	}
 	feat := map[string]bool{fmt.Sprintf("services-%d", len(mc.SDLs)): true}
+	if len(mc.GatewayFields) > 0 {
+		feat["gateway-query-fields"] = true
+	}
 	if mc.Mutation != "" {
 		feat["mutation:"+strings.SplitN(mc.Mutation, ":", 2)[0]] = true
 	} else {
@@ -200,7 +240,7 @@ func (m mergeRunner) Run(c *Ctx, i int) CaseResult {
 	counters := map[string]int{"orders": 0}
 	for _, order := range ps {
 		for rep := 0; rep < 2; rep++ {
-			out := buildOrder(mc.SDLs, order, schemas...)
+			out := buildOrderWith(mc.SDLs, order, mc.GatewayFields, schemas...)
 			counters["orders"]++
 			counters["outcome_"+out.Kind]++
 			// the model on the same order (internal schema last, as gateway.New does)
@@ -254,7 +294,11 @@ func (m mergeRunner) Run(c *Ctx, i int) CaseResult {
 				if _, err := gqlparser.LoadSchema(&ast.Source{Input: PrintSchema(out.Fed.Merged)}); err != nil {
 					add("L0.merged-invalid", "the printed merged schema does not load: "+firstLine(err.Error()), nil, nil)
 				}
-				if d := routeDiff(c, out.Fed, schemas, order, internal); d != "" {
+				var gwFieldTypes []string
+				for _, g := range mc.GatewayFields {
+					gwFieldTypes = append(gwFieldTypes, g.Type)
+				}
+				if d := routeDiff(c, out.Fed, schemas, order, internal, gwFieldTypes...); d != "" {
 					add("L1.routing", d, nil, nil)
 				}
 			}
@@ -273,8 +317,15 @@ func (m mergeRunner) Run(c *Ctx, i int) CaseResult {
 		// gateway is built from an overlapping sub-list of the same schema objects, and no construction modifies
 		// the service schemas it was given
 		if len(schemas) >= 3 {
-			g1 := buildOrder(mc.SDLs, []int{0, 1}, schemas...)
-			g2 := buildOrder(mc.SDLs, []int{0, 2}, schemas...)
+			// the second gateway gets query fields of the same names with other signatures
+			var other []GwField
+			for _, g := range mc.GatewayFields {
+				o := g
+				o.Arg, o.List = !g.Arg, !g.List
+				other = append(other, o)
+			}
+			g1 := buildOrderWith(mc.SDLs, []int{0, 1}, mc.GatewayFields, schemas...)
+			g2 := buildOrderWith(mc.SDLs, []int{0, 2}, other, schemas...)
 			counters["sublist_constructions"] += 2
 			if g1.Kind == "ok" && g2.Kind == "ok" {
 				again := Canon(CanonMerged(g1.Fed.Merged))
@@ -346,7 +397,25 @@ func filterMerge(prop string, fails []Failure) []Failure {
 }
 
 // routeDiff compares the captured FieldURLMap with the Lean routing model.
-func routeDiff(c *Ctx, f *Fed, schemas []*ast.Schema, order []int, internal *ast.Schema) string {
+func routeDiff(c *Ctx, f *Fed, schemas []*ast.Schema, order []int, internal *ast.Schema, gwFieldTypes ...string) string {
+	var urls []string
+	var ordered []*ast.Schema
+	for _, k := range order {
+		urls = append(urls, fmt.Sprintf("S%d", k))
+		ordered = append(ordered, schemas[k])
+	}
+	return routeDiffURLs(c, f, urls, ordered, internal, gwFieldTypes...)
+}
+
+// routeDiffURLs: the routing table the gateway built (captured through the planner) against the Lean routing model
+// computed from the service schemas themselves, in registration order
+func routeDiffURLs(c *Ctx, f *Fed, urls []string, schemas []*ast.Schema, internal *ast.Schema, gwFieldTypes ...string) string {
+	// the gateway can answer `id` of the type of each of its own query fields (node: Node, then those it was given)
+	gwTypes := append([]string{"Node"}, gwFieldTypes...)
+	order := make([]int, len(urls))
+	for i := range order {
+		order[i] = i
+	}
 	serSrc := func(url string, s *ast.Schema) map[string]interface{} {
 		types := map[string]interface{}{}
 		for n, d := range s.Types {
@@ -361,12 +430,12 @@ func routeDiff(c *Ctx, f *Fed, schemas []*ast.Schema, order []int, internal *ast
 	}
 	var srcs []interface{}
 	for _, k := range order {
-		srcs = append(srcs, serSrc(fmt.Sprintf("S%d", k), schemas[k]))
+		srcs = append(srcs, serSrc(urls[k], schemas[k]))
 	}
 	internalURL := ""
 	known := map[string]bool{}
 	for _, k := range order {
-		known[fmt.Sprintf("S%d", k)] = true
+		known[urls[k]] = true
 	}
 	for _, locs := range f.Locations {
 		for _, l := range locs {
@@ -402,7 +471,7 @@ func routeDiff(c *Ctx, f *Fed, schemas []*ast.Schema, order []int, internal *ast
 			}
 		}
 	}
-	ans, err := c.Drv.Call(map[string]interface{}{"op": "route", "sources": srcs, "internal": serSrc(internalURL, internal), "gwTypes": []string{"Node"}, "keys": keys})
+	ans, err := c.Drv.Call(map[string]interface{}{"op": "route", "sources": srcs, "internal": serSrc(internalURL, internal), "gwTypes": gwTypes, "keys": keys})
 	if err != nil {
 		return "harness: " + err.Error()
 	}
